@@ -32,4 +32,7 @@ CHECKS['C14'] = {'technique': MS + '; handler-mode trace queries; try_accounts a
 CHECKS['C12'] = {'technique': MS + '; handler-mode write-set queries', 'engine': 'mirsym',
     'text': 'Bounded symbolic verification: each delegated-admin handler is executed symbolically with every bank-mutating callee inlined; for every loaded account object each written leaf must be inside the role mask (all Option combinations and all 2^64 flag words, state-merged); frozen banks: only the limits; FREEZE_SETTINGS never cleared; override_emissions_flag/update_flag as whole functions. Counterexamples replay natively (through marginfi::entry for the emissions instruction).',
     'note': _H + ' Deleverage daily limit (C12.d) and deleverage bracket (C12.e) are covered under C10-style obligations only partly (see DESIGN).'}
+CHECKS['C15'] = {'technique': MS + '; inductive invariant (one step from an arbitrary state satisfying Inv)', 'engine': 'mirsym',
+    'text': 'Bounded symbolic verification: PanicState::{pause, unpause, unpause_if_expired} from MIR, one step from any state satisfying the stated invariant at any later time preserves it; each pause pushes the paused-until time by <= 30 min, never > 60 min ahead, daily counter resets only after >= 24h; is_expired depends on (flag,start,now) only; the four pause instructions in handler mode (admin unpause never fails while flagged, permissionless unpause iff expired, propagate copies verbatim). The invariant replaces the region graph: all interleavings and timings are covered by induction.',
+    'note': _H + ' Timestamps in [0, 2^62).'}
 NOT_APPLICABLE = {}
